@@ -307,6 +307,22 @@ def is_z3(v):
     return isinstance(v, z3.ExprRef)
 
 
+def canon_name(t):
+    """self!0 -> 'self'; attr.hooks:U(self!0) -> 'self.hooks'; anything else -> None"""
+    try:
+        if z3.is_const(t) and t.decl().kind() == z3.Z3_OP_UNINTERPRETED:
+            nm = t.decl().name()
+            return nm.split("!")[0] if "!" in nm and not nm.startswith(("ret.", "exc", "global:", "class:")) else None
+        if z3.is_app(t) and t.num_args() == 1 and t.decl().name().startswith("attr."):
+            inner = canon_name(t.arg(0))
+            if inner is None:
+                return None
+            return f"{inner}.{t.decl().name()[5:].split(':')[0]}"
+    except Exception:
+        return None
+    return None
+
+
 def lift(v):
     """python constant -> z3 term where possible"""
     if is_z3(v):
@@ -1915,12 +1931,19 @@ class Engine:
         # evaluate callee (for bound methods), args, kwargs left to right
         kwnames = [k.arg if k.arg is not None else "**" for k in node.keywords]
         if isinstance(node.func, ast.Attribute):
-            # method call: evaluate the receiver; opaque receivers give a bound method
+            # method call: evaluate the receiver; opaque receivers give a bound method.  The call is
+            # named after the receiver VALUE (self.hooks.post_run_task), not after the source text, so
+            # that a local alias (h = self.hooks; h.post_run_task(...)) names the same callee
             fouts = []
             for s, o, e in self.eval(node.func.value, st):
                 if e:
                     fouts.append((s, None, e))
-                elif is_z3(o) and o.sort() == U and fname not in self.c.callees:
+                    continue
+                if is_z3(o) and o.sort() == U:
+                    cn = canon_name(o)
+                    if cn is not None:
+                        fname = f"{cn}.{node.func.attr}"
+                if is_z3(o) and o.sort() == U and fname not in self.c.callees:
                     fouts.append((s, BoundV(o, node.func.attr, fname), None))
                 else:
                     fouts.extend(self.getattr_(s, o, node.func.attr, node.func))
